@@ -1713,7 +1713,19 @@ func (self *Fork) expandForkFromObj(
 		self.writeDisable()
 		return nil, nil
 	}
-	switch split.Source.CallMode() {
+	mode := split.Source.CallMode()
+	if mode != syntax.ModeArrayCall && mode != syntax.ModeMapCall {
+		// The source of the call is null for some other fork of an
+		// enclosing mapped call (e.g. a producer which is disabled there),
+		// so it says nothing about the kind of collection: look at the
+		// value for this fork.
+		if _, err := getUnknownLength(obj); err == nil {
+			mode = syntax.ModeArrayCall
+		} else if _, err := getUnknownKeys(obj); err == nil {
+			mode = syntax.ModeMapCall
+		}
+	}
+	switch mode {
 	case syntax.ModeArrayCall:
 		n, err := getUnknownLength(obj)
 		if err != nil {
